@@ -13,9 +13,9 @@ EXPLANATION = (
     "C02 R02.4). R12.3: every error value a backend unseal can return is one of the unit variants InvalidToken / CryptoError / "
     "ClaimsError (so it carries no payload-derived data), and PayloadError is constructed only at the reviewed sites in "
     "paseto-core. R12.4: the only public way to reach a sealed token's footer is `unverified_footer`; its fields are not public. "
-    "These are pure ordering/census properties, so nothing value-dependent remains once they hold.")
+    "R12.5/R12.6 (shared with C02 R02.5/R02.7): a wrong implicit assertion is rejected (v1/v2) or authenticated (v3/v4), and what is authenticated is the token as received (stored footer bytes, not a re-encoding), so a token that should fail authentication does fail it. These are pure ordering/census properties, so nothing value-dependent remains once they hold.")
 ASSUMPTIONS = ["rustc type checking / MIR construction are correct", "path enumeration covers every acyclic MIR path of the analysed functions (they are loop-free; a loop is reported)"]
-FLOORS = {"R12.1": 1, "R12.2": 12, "R12.3": 13, "R12.4": 2}
+FLOORS = {"R12.1": 1, "R12.2": 12, "R12.3": 13, "R12.4": 2, "R12.5": 12, "R12.6": 1}
 ALLOWED_ERR = {"InvalidToken", "CryptoError", "ClaimsError"}
 PAYLOADERROR_SITES = {
     ("paseto_core", "tokens::SealedToken::<V, P, M, F>::unseal"): "decode error of an authenticated payload (behind the R12.1 gate)",
@@ -103,6 +103,9 @@ def run(ctx):
             for (rule, k, ok, detail, site) in sc.findings:
                 if rule == "R02.4":
                     ctx.add("R12.2", f"C12/R12.2/{key}", ok, detail, site)
+                if rule == "R02.5":
+                    # a wrong implicit assertion is an authentication failure: v1/v2 must reject a non-empty one first, v3/v4 must authenticate it
+                    ctx.add("R12.5", f"C12/R12.5/{key}", ok, detail, site)
             f, run = c02.unseal_run(w, be, purpose)
             if f is None:
                 ctx.add("R12.3", f"C12/R12.3/{key}", False, "anchor missing")
@@ -115,6 +118,15 @@ def run(ctx):
                 if v not in ALLOWED_ERR:
                     bad.append(f"error value {fmt_n(run.norm.n(e))[:160]} is not one of {sorted(ALLOWED_ERR)}")
             ctx.add("R12.3", f"C12/R12.3/{key}", not bad, "; ".join(sorted(set(bad))), site_of(f), {"kinds": {str(k): v for k, v in kinds.items()}})
+    # R12.6 (shared with C02 R02.7): what is authenticated is the token as received (payload, stored footer bytes, assertion, key unmodified)
+    class Scratch2:
+        def __init__(s): s.findings = []; s.world = ctx.world; s.crates = ctx.crates; s.analysed = {"functions": 0, "paths": 0, "call_sites": 0}
+        def add(s, rule, k, ok, detail="", site=None, facts=None): s.findings.append((rule, k, ok, detail, site))
+        def sample(s, x): pass
+    sc2 = Scratch2()
+    c02.check_core_plumbing(sc2)
+    for (rule, k, ok, detail, site) in sc2.findings:
+        ctx.add("R12.6", "C12/R12.6/core-passes-received-bytes", ok, detail, site)
     # PayloadError construction census (aggregate or constructor fn item)
     sites = set()
     for c in ctx.crates.values():
